@@ -101,6 +101,7 @@ type PathStats struct {
 	Funcs       map[string]bool
 	Unsupported map[string]int64
 	Unknowns    int64
+	WitnessHits int64
 	Samples     []string
 }
 
@@ -131,13 +132,16 @@ type Interp struct {
 	depth    int
 	maxDepth int
 
-	symMapOrder bool
-	mergeGuard  *Term // non-nil while if-converting
-	mergeBudget int
-	mergeInstrs int
-	undefN      int
-	evlog       []string
-	noMerge     bool
+	symMapOrder  bool
+	mergeGuard   *Term // non-nil while if-converting
+	mergeBudget  int
+	mergeInstrs  int
+	undefN       int
+	evlog        []string
+	live         []*model
+	all          []*model
+	noModelCache bool
+	noMerge      bool
 
 	cfg          *Kernel
 	stats        *PathStats
@@ -157,6 +161,7 @@ type Interp struct {
 
 	sched     *scheduler
 	callStack []*ssa.Function
+	fnInfos   map[*ssa.Function]*fnInfo
 	params    map[string]int
 	errType   types.Type
 }
@@ -166,13 +171,52 @@ type frame struct {
 	caller           *frame
 	fn               *ssa.Function
 	block, prevBlock *ssa.BasicBlock
-	env              map[ssa.Value]Value
+	env              []Value
+	fi               *fnInfo
 	locals           []Value
 	defers           *deferred
 	result           Value
 	panicking        bool
 	panicVal         *goPanic
 	phisDone         bool
+}
+
+// fnInfo numbers the SSA values of a function so that a frame's environment
+// is a slice.
+type fnInfo struct {
+	idx map[ssa.Value]int
+	n   int
+}
+
+func (in *Interp) fnInfoOf(fn *ssa.Function) *fnInfo {
+	if fi, ok := in.fnInfos[fn]; ok {
+		return fi
+	}
+	fi := &fnInfo{idx: map[ssa.Value]int{}}
+	add := func(v ssa.Value) {
+		if _, ok := fi.idx[v]; !ok {
+			fi.idx[v] = fi.n
+			fi.n++
+		}
+	}
+	for _, p := range fn.Params {
+		add(p)
+	}
+	for _, fv := range fn.FreeVars {
+		add(fv)
+	}
+	for _, l := range fn.Locals {
+		add(l)
+	}
+	for _, b := range fn.Blocks {
+		for _, instr := range b.Instrs {
+			if v, ok := instr.(ssa.Value); ok {
+				add(v)
+			}
+		}
+	}
+	in.fnInfos[fn] = fi
+	return fi
 }
 
 type deferred struct {
@@ -217,6 +261,7 @@ func (in *Interp) addPC(c *Term) {
 	if !in.pcSet[c.id] {
 		in.pcSet[c.id] = true
 		in.pc = append(in.pc, c)
+		in.filterModels(c)
 	}
 }
 
@@ -297,7 +342,16 @@ func (in *Interp) branch(c *Term) bool {
 		in.addPC(nc)
 		return false
 	}
-	rT := in.solver.Check(in.assumps(c))
+	var rT SatResult
+	if in.witness(c, true) {
+		rT = Sat
+		in.stats.WitnessHits++
+	} else {
+		rT = in.solver.Check(in.assumps(c))
+		if rT == Sat {
+			in.learnModel()
+		}
+	}
 	var d decision
 	d.kind = dBranch
 	switch rT {
@@ -307,7 +361,16 @@ func (in *Interp) branch(c *Term) bool {
 		if rT == Unknown {
 			in.stats.Unknowns++
 		}
-		rF := in.solver.Check(in.assumps(nc))
+		var rF SatResult
+		if in.witness(c, false) {
+			rF = Sat
+			in.stats.WitnessHits++
+		} else {
+			rF = in.solver.Check(in.assumps(nc))
+			if rF == Sat {
+				in.learnModel()
+			}
+		}
 		if rF == Unknown {
 			in.stats.Unknowns++
 		}
@@ -542,8 +605,8 @@ func (fr *frame) get(key ssa.Value) Value {
 	case *ssa.Global:
 		return fr.in.globalAddr(key)
 	}
-	if r, ok := fr.env[key]; ok {
-		return r
+	if i, ok := fr.fi.idx[key]; ok {
+		return fr.env[i]
 	}
 	panic(fmt.Sprintf("get: no value for %T: %v in %s", key, key.Name(), fr.fn))
 }
@@ -733,18 +796,19 @@ func (in *Interp) execSSA(caller *frame, fn *ssa.Function, args []Value, env []V
 		in.stats.Funcs[fn.String()] = true
 	}
 	fr := &frame{in: in, caller: caller, fn: fn}
-	fr.env = make(map[ssa.Value]Value, 16)
+	fr.fi = in.fnInfoOf(fn)
+	fr.env = make([]Value, fr.fi.n)
 	fr.block = fn.Blocks[0]
 	fr.locals = make([]Value, len(fn.Locals))
 	for i, l := range fn.Locals {
 		fr.locals[i] = in.zero(deref(l.Type()))
-		fr.env[l] = &fr.locals[i]
+		fr.env[fr.fi.idx[l]] = &fr.locals[i]
 	}
 	for i, p := range fn.Params {
-		fr.env[p] = args[i]
+		fr.env[fr.fi.idx[p]] = args[i]
 	}
 	for i, fv := range fn.FreeVars {
-		fr.env[fv] = env[i]
+		fr.env[fr.fi.idx[fv]] = env[i]
 	}
 	for fr.block != nil {
 		in.runFrame(fr)
@@ -845,7 +909,7 @@ func (in *Interp) executePhis(fr *frame) {
 		if !ok {
 			break
 		}
-		fr.env[phi] = temps[i]
+		fr.env[fr.fi.idx[phi]] = temps[i]
 	}
 }
 
@@ -920,26 +984,26 @@ func (in *Interp) visitInstr(fr *frame, instr ssa.Instruction) continuation {
 	switch instr := instr.(type) {
 	case *ssa.DebugRef:
 	case *ssa.UnOp:
-		fr.env[instr] = in.unop(fr, instr, fr.get(instr.X))
+		fr.env[fr.fi.idx[instr]] = in.unop(fr, instr, fr.get(instr.X))
 	case *ssa.BinOp:
-		fr.env[instr] = in.binop(instr.Op, instr.X.Type(), fr.get(instr.X), fr.get(instr.Y), instr.Y.Type())
+		fr.env[fr.fi.idx[instr]] = in.binop(instr.Op, instr.X.Type(), fr.get(instr.X), fr.get(instr.Y), instr.Y.Type())
 	case *ssa.Call:
 		fn, args := in.prepareCall(fr, &instr.Call)
-		fr.env[instr] = in.call(fr, fn, args)
+		fr.env[fr.fi.idx[instr]] = in.call(fr, fn, args)
 	case *ssa.ChangeInterface:
-		fr.env[instr] = fr.get(instr.X)
+		fr.env[fr.fi.idx[instr]] = fr.get(instr.X)
 	case *ssa.ChangeType:
-		fr.env[instr] = fr.get(instr.X)
+		fr.env[fr.fi.idx[instr]] = fr.get(instr.X)
 	case *ssa.Convert:
-		fr.env[instr] = in.conv(instr.Type(), instr.X.Type(), fr.get(instr.X))
+		fr.env[fr.fi.idx[instr]] = in.conv(instr.Type(), instr.X.Type(), fr.get(instr.X))
 	case *ssa.SliceToArrayPointer:
 		in.unsupported("SliceToArrayPointer")
 	case *ssa.MakeInterface:
-		fr.env[instr] = Iface{t: instr.X.Type(), v: fr.get(instr.X)}
+		fr.env[fr.fi.idx[instr]] = Iface{t: instr.X.Type(), v: fr.get(instr.X)}
 	case *ssa.Extract:
-		fr.env[instr] = fr.get(instr.Tuple).(Tuple)[instr.Index]
+		fr.env[fr.fi.idx[instr]] = fr.get(instr.Tuple).(Tuple)[instr.Index]
 	case *ssa.Slice:
-		fr.env[instr] = in.sliceOp(instr, fr.get(instr.X), fr.get(instr.Low), fr.get(instr.High), fr.get(instr.Max))
+		fr.env[fr.fi.idx[instr]] = in.sliceOp(instr, fr.get(instr.X), fr.get(instr.Low), fr.get(instr.High), fr.get(instr.Max))
 	case *ssa.Return:
 		switch len(instr.Results) {
 		case 0:
@@ -1005,7 +1069,7 @@ func (in *Interp) visitInstr(fr *frame, instr ssa.Instruction) continuation {
 		if !sz.IsConst() {
 			in.unsupported("symbolic channel size")
 		}
-		fr.env[instr] = in.newChan(int(sz.k))
+		fr.env[fr.fi.idx[instr]] = in.newChan(int(sz.k))
 	case *ssa.Alloc:
 		if in.mergeGuard != nil {
 			panic(mergeAbort{"alloc", false})
@@ -1013,10 +1077,10 @@ func (in *Interp) visitInstr(fr *frame, instr ssa.Instruction) continuation {
 		var addr *Value
 		if instr.Heap {
 			addr = new(Value)
-			fr.env[instr] = addr
+			fr.env[fr.fi.idx[instr]] = addr
 			*addr = in.zero(deref(instr.Type()))
 		} else {
-			addr = fr.env[instr].(*Value)
+			addr = fr.env[fr.fi.idx[instr]].(*Value)
 			// locals are re-zeroed on each execution of the Alloc (loops)
 			in.store(addr, in.zero(deref(instr.Type())))
 		}
@@ -1031,13 +1095,13 @@ func (in *Interp) visitInstr(fr *frame, instr ssa.Instruction) continuation {
 		for i := range sl {
 			sl[i] = in.zero(tElt)
 		}
-		fr.env[instr] = sl[:ln]
+		fr.env[fr.fi.idx[instr]] = sl[:ln]
 	case *ssa.MakeMap:
-		fr.env[instr] = in.newMap(instr.Type().Underlying().(*types.Map).Key())
+		fr.env[fr.fi.idx[instr]] = in.newMap(instr.Type().Underlying().(*types.Map).Key())
 	case *ssa.Range:
-		fr.env[instr] = in.rangeIter(fr.get(instr.X), instr.X.Type())
+		fr.env[fr.fi.idx[instr]] = in.rangeIter(fr.get(instr.X), instr.X.Type())
 	case *ssa.Next:
-		fr.env[instr] = in.iterNext(fr, instr, fr.get(instr.Iter))
+		fr.env[fr.fi.idx[instr]] = in.iterNext(fr, instr, fr.get(instr.Iter))
 	case *ssa.FieldAddr:
 		p := fr.get(instr.X).(*Value)
 		if p == nil {
@@ -1050,15 +1114,15 @@ func (in *Interp) visitInstr(fr *frame, instr ssa.Instruction) continuation {
 		if !isS {
 			panic(fmt.Sprintf("FieldAddr: pointee is %T, want struct %v in %s at %s", *p, instr.X.Type(), fr.fn, in.prog.Fset.Position(instr.Pos())))
 		}
-		fr.env[instr] = &st[instr.Field]
+		fr.env[fr.fi.idx[instr]] = &st[instr.Field]
 	case *ssa.Field:
-		fr.env[instr] = fr.get(instr.X).(Struct)[instr.Field]
+		fr.env[fr.fi.idx[instr]] = fr.get(instr.X).(Struct)[instr.Field]
 	case *ssa.IndexAddr:
-		fr.env[instr] = in.indexAddr(fr, instr, fr.get(instr.X), fr.get(instr.Index).(*Term))
+		fr.env[fr.fi.idx[instr]] = in.indexAddr(fr, instr, fr.get(instr.X), fr.get(instr.Index).(*Term))
 	case *ssa.Index:
-		fr.env[instr] = in.indexOp(fr, instr, fr.get(instr.X), fr.get(instr.Index).(*Term))
+		fr.env[fr.fi.idx[instr]] = in.indexOp(fr, instr, fr.get(instr.X), fr.get(instr.Index).(*Term))
 	case *ssa.Lookup:
-		fr.env[instr] = in.lookup(fr, instr, fr.get(instr.X), fr.get(instr.Index))
+		fr.env[fr.fi.idx[instr]] = in.lookup(fr, instr, fr.get(instr.X), fr.get(instr.Index))
 	case *ssa.MapUpdate:
 		if in.mergeGuard != nil {
 			panic(mergeAbort{"mapupdate", false})
@@ -1067,17 +1131,17 @@ func (in *Interp) visitInstr(fr *frame, instr ssa.Instruction) continuation {
 		in.raceWriteObj(m)
 		in.mapInsert(m, fr.get(instr.Key), copyVal(fr.get(instr.Value)))
 	case *ssa.TypeAssert:
-		fr.env[instr] = in.typeAssert(instr, fr.get(instr.X).(Iface))
+		fr.env[fr.fi.idx[instr]] = in.typeAssert(instr, fr.get(instr.X).(Iface))
 	case *ssa.MakeClosure:
 		var bindings []Value
 		for _, b := range instr.Bindings {
 			bindings = append(bindings, fr.get(b))
 		}
-		fr.env[instr] = &Closure{instr.Fn.(*ssa.Function), bindings}
+		fr.env[fr.fi.idx[instr]] = &Closure{instr.Fn.(*ssa.Function), bindings}
 	case *ssa.Phi:
 		panic("phi")
 	case *ssa.Select:
-		fr.env[instr] = in.selectOp(fr, instr)
+		fr.env[fr.fi.idx[instr]] = in.selectOp(fr, instr)
 	default:
 		in.unsupported(fmt.Sprintf("instruction %T", instr))
 	}
